@@ -629,7 +629,7 @@ def gen_pop(rng, homozygous=False, n=None):
             "u": u, "beta": [_dy(rng) for _ in range(t)],
             "bv": {"mat": _mat(rng, n, t), "location": [_dy(rng) for _ in range(t)], "scale": [rng.choice([1.0, 0.5, 2.0, 1.5]) for _ in range(t)]}}
 
-FACTORIES = ["ebv", "gebv_bvmat", "gebv_gmat", "gwgebv", "wgs", "ocs", "mgr", "meh", "l2", "l1", "fam", "uc", "uc_xmap", "ohv", "opv", "gb",
+FACTORIES = ["ebv", "gebv_bvmat", "gebv_gmat", "gwgebv", "wgs", "ocs", "mgr", "meh", "l2", "l2w", "l1", "fam", "uc", "uc_xmap", "ohv", "opv", "gb",
              "pafd", "pau", "mogs", "embv", "rand", "wgebvmat", "embvmat"]
 
 def gen_factory(rng, which):
@@ -654,6 +654,9 @@ def gen_factory(rng, which):
         args["tfreq"] = [[rng.choice([0.0, 1.0, 0.5, 0.25]) for _ in range(t)] for _ in range(p)]
     if which == "l1":
         args["tfreq"] = [[rng.choice([0.0, 1.0, 0.5, 0.25]) for _ in range(t)] for _ in range(p)]
+    if which == "l2w":                                        # trait-specific marker weights and reference frequencies
+        args["mkrwt"] = [[rng.randint(1, 16) / 8 for _ in range(t)] for _ in range(p)]
+        args["afreq"] = [[rng.choice([0.5, 0.25, 0.75]) for _ in range(t)] for _ in range(p)]
     if which == "rand":
         args["normals"] = [[_dy(rng) for _ in range(t)] for _ in range(n)]
     return {"kind": "factory", "which": which, "pop": pop, "args": args}
@@ -699,7 +702,7 @@ def run_factory(case):
     which, pop, A = case["which"], case["pop"], case["args"]
     n, p, t = len(pop["labels"]), len(pop["chrgrp"]), len(pop["beta"])
     out = {}
-    fam = {"gebv_bvmat": "gebv", "gebv_gmat": "gebv", "uc_xmap": "uc"}.get(which, which)
+    fam = {"gebv_bvmat": "gebv", "gebv_gmat": "gebv", "uc_xmap": "uc", "l2w": "l2"}.get(which, which)
     if which == "wgebvmat":
         from pybrops.model.wgebvmat.DenseWeightedGenomicEstimatedBreedingValueMatrix import DenseWeightedGenomicEstimatedBreedingValueMatrix as W
         g, gmod, bv = build_pop(pop, A["phased"])
@@ -739,6 +742,10 @@ def run_factory(case):
                     if which == "l2":
                         pr = cls.from_gmat(g, fc, numpy.array(pop["u"], dtype=float), gmod.fafreq(g), **_space(enc, n, nobj=t)); return {"C": _arr(pr.C)}
                     pr = cls.from_gmat(g, fc, **_space(enc, n)); return {"C": _arr(pr.C)}
+                if which == "l2w":
+                    from pybrops.popgen.cmat.fcty.DenseGeneralizedWeightedCoancestryMatrixFactory import DenseGeneralizedWeightedCoancestryMatrixFactory
+                    pr = cls.from_gmat(g, DenseGeneralizedWeightedCoancestryMatrixFactory(), numpy.array(A["mkrwt"], dtype=float), numpy.array(A["afreq"], dtype=float), **_space(enc, n, nobj=t))
+                    return {"C": _arr(pr.C)}
                 if which == "l1":
                     pr = cls.from_numpy(numpy.array(pop["u"], dtype=float), g.tafreq(), numpy.array(A["tfreq"], dtype=float), **_space(enc, n, nobj=t)); return {"V": _arr(pr.V)}
                 if which == "fam":
@@ -835,7 +842,7 @@ def pred_factory(case, out):
         if o.get("skip"): continue
         def chk(key, want, what, tol=2.0 ** -30):
             if not _near(_unhex(o[key]), want, tol): bad.append("%s: %s != %s of the population in taxon order" % (tag, key, what))
-        def chk_factor(C, what):
+        def chk_factor(C, what, K=K):
             C = numpy.array(_unhex(C), dtype=float)
             if not numpy.all(numpy.isfinite(C)): bad.append("%s: %s not finite" % (tag, what)); return
             if numpy.any(numpy.tril(C, -1) != 0): bad.append("%s: %s is not upper triangular" % (tag, what))
@@ -856,6 +863,12 @@ def pred_factory(case, out):
             Cs = _unhex(o["C"])
             if len(Cs) != t: bad.append("%s: %d factors for %d traits" % (tag, len(Cs), t))
             for C in Cs: chk_factor(C, "C[trait]")
+        elif which == "l2w":
+            Cs = _unhex(o["C"]); w = numpy.array(A["mkrwt"], dtype=float); af = numpy.array(A["afreq"], dtype=float)
+            if len(Cs) != t: bad.append("%s: %d factors for %d traits" % (tag, len(Cs), t))
+            for q, C in enumerate(Cs):
+                Zq = X - 2.0 * af[None, :, q]
+                chk_factor(C, "C[trait %d]" % q, 0.5 * (Zq * w[None, :, q]) @ Zq.T)     # the weighted relationship matrix of that trait
         elif which == "l1":
             tf = numpy.array(A["tfreq"], dtype=float)
             V = numpy.array([[[u[j, q] * (X[i, j] / 2 - tf[j, q]) for i in range(n)] for j in range(p)] for q in range(t)])
@@ -1055,6 +1068,7 @@ def classify(case, out, clauses):
         if w == "wgs":
             if A["phased"] and all("must have dimension equal to 2" in c for c in clauses): return "C05-wgs-factory-phased"
             if not A["phased"] and bool(numpy.any(f == 0)) and all("gwgebv != weighted breeding values" in c for c in clauses): return "C05-wgs-factory-nan"
+        if w == "l2w" and all("factory raised ValueError: numpy.ndarray 'mkrwt' must have dimension equal to 1" in c for c in clauses): return "C05-l2-factory-weights"
         if w == "wgebvmat" and bool(numpy.any(f == 1)) and all("mat != arcsine-weighted" in c for c in clauses): return "C05-wgebvmat-fixed-nan"
     return None
 
@@ -1078,19 +1092,19 @@ def describe(case, out):
 def gen_cases(rng, tier):
     q = tier == "quick"
     cases = [{"kind": "classes"}, {"kind": "stub"}]
-    per = 22 if q else 180
+    per = 30 if q else 180
     for fam in FAMILIES:
         for _ in range(per):
             cases.append(gen_latent(rng, fam))
         if fam in ("pafd", "pau", "mogs"):
-            for _ in range(14 if q else 80):
+            for _ in range(16 if q else 80):
                 cases.append(gen_latent(rng, fam, "badn"))
         if fam not in SUBSET_ONLY:
             for i in range(4 if q else 32):
                 cases.append(gen_guard(rng, fam, ["at", "inside", "outside", "tiny"][i % 4]))
         cases.append({"kind": "nlatent", "case": gen_latent(rng, fam)})
     for w in FACTORIES:
-        for _ in range(5 if q else 40):
+        for _ in range(6 if q else 40):
             cases.append(gen_factory(rng, w))
     return cases
 
